@@ -1180,8 +1180,12 @@ C**********************************************************************
          I1=L-I
          Z(I1)=1D0/(DFLOAT(2*I1+1)*XX-Z(I1+1))
     5 CONTINUE
-      Z0=1D0/(XX-Z(1))
-      Y0=Z0*DCOS(X)*XX
+      IF (DABS(DCOS(X)).GE.DABS(DSIN(X))) THEN
+         Z0=1D0/(XX-Z(1))
+         Y0=Z0*DCOS(X)*XX
+      ELSE
+         Y0=DSIN(X)*XX
+      ENDIF
       Y1=Y0*Z(1)
       U(1)=Y0-Y1*XX
       Y(1)=Y1
